@@ -8,7 +8,7 @@
    [elems st i] = what iterating over the wrapper in slot i yields ([RVal v] a value, [RDangling] freed storage,
    [ROob] outside the buffer, [RNull] through a null pointer). *)
 From Common Require Import Prelude.
-From C11 Require Import Model Spec Lists Proofs Inv Inv2 Inv6 InvCor InvStep ProofsReach.
+From C11 Require Import Model Spec Lists Proofs Inv Inv2 Inv6 InvCor InvStep ProofsReach Frame FactsModel FactsCheck FactsSelf.
 
 (* ---------------------------------------------------------------------------------- the invariant *)
 (* For every history: every live wrapper has ptr = nullptr <-> size() = 0, and every live OWNING wrapper
@@ -130,6 +130,33 @@ Theorem resize_tracks : forall st i a vb n v st1, reachable st ->
 Proof. exact resize_tracks_reach. Qed.
 Print Assumptions resize_tracks.
 
+(* -------------------------------------------------------------------------------- the frame theorem *)
+(* An operation leaves every owning wrapper it does not target exactly as it was: the operation's targets are the
+   slots it constructs, assigns, resets, resizes, moves from or destroys; a write through a wrapper additionally
+   shows in every wrapper designating the same buffer (FixedArray copies and FixedArrayViews share their allocation
+   by design), and in nothing else.  Whatever is done to the source containers or to other wrappers — including the
+   ones j was copied from or built from — j's slot and the elements it yields are unchanged. *)
+Theorem frame_step : forall st o st' j,
+  reachable st -> step_new st o = Some st' ->
+  owning (slot_at st j) -> ~ In j (targets o) -> ~ aliased_write st o j ->
+  slot_at st' j = slot_at st j /\ elems st' j = elems st j.
+Proof. exact frame_step_reach. Qed.
+Print Assumptions frame_step.
+
+(* ... hence over any history that does not touch it (a skipped operation changes nothing) *)
+Theorem frame_run : forall ops st j, reachable st -> owning (slot_at st j) -> untouched st ops j ->
+  elems (run_new st ops) j = elems st j.
+Proof. exact frame_run_reach. Qed.
+Print Assumptions frame_run.
+
+(* "the contents of an owning array ... stay valid for as long as that array is alive": through any history that
+   neither targets nor writes through an alias of wrapper j, j keeps yielding the same elements, all of them values *)
+Theorem valid_while_alive : forall ops st j e, reachable st -> owning (slot_at st j) -> elems st j = Some e ->
+  untouched st ops j ->
+  elems (run_new st ops) j = Some e /\ Forall (fun r => exists v, r = RVal v) e.
+Proof. exact valid_while_alive_reach. Qed.
+Print Assumptions valid_while_alive.
+
 (* ------------------------------------------------------------------------------------- DataView *)
 (* DataView<T>[i] reads exactly the sizeof(T) bytes at byte offset i*stride from the pointer *)
 Theorem dataview_offset : forall h b off stride sz i bu,
@@ -139,6 +166,18 @@ Theorem dataview_offset : forall h b off stride sz i bu,
   = map RVal (firstn sz (skipn (off + i * stride) (b_cells bu))).
 Proof. exact dv_index_live. Qed.
 Print Assumptions dataview_offset.
+
+(* ------------------------------------------------------------------- the source-derived fact check *)
+(* The reflective checker of PropertiesFacts.v accepts the table Model.v assumes (special members, micro-operation
+   lists interpreted over the model's heap on 80 configurations vs step_new, accessor / at() / setPtr / DataView
+   expressions on a grid vs set_ptr / arr_at / arr_iter / dv_index) — so a failure of PropertiesFacts.facts_match on
+   the table generated from the working tree is about the source — and it rejects realistic slips: resize, the copy
+   constructor or reset() without setPtr, a move constructor that does not reset its source, a FixedArrayView
+   holding the caller's FixedArray, a FixedArray assignment that keeps the old allocation, an implicit OwnedArray
+   copy constructor, at() throwing only for offset > size(), DataView[i] at i*sizeof(T). *)
+Theorem fact_checker_accepts_model : check model_special model_table model_exprs = true.
+Proof. exact model_facts_consistent. Qed.
+Print Assumptions fact_checker_accepts_model.
 
 (* ------------------------------------------------------- the code before the repairs (findings) *)
 (* implicit OwnedArray copy: A := OwnedArray(src 0); B := copy of A; destroy A; B's elements dangle *)
@@ -215,6 +254,20 @@ Example resize_tracks_nonvacuous :
     option_map b_rc (nth_error (heap st1) 2) = Some 0 /\
     elems st1 0 = Some (map RVal [1;2;3;4;4;4;4;4;4]%N).
 Proof. vm_compute. eexists. repeat split; reflexivity. Qed.
+
+(* frame_run / valid_while_alive: a history that copies, writes through the copy's alias, overwrites and destroys the
+   source, destroys the original FixedArray and resizes another array satisfies [untouched] for slot 0 *)
+Definition frame_hist : list op :=
+  [CopyCtor 2 1; Write 2 0 9%N; SrcWrite 0 1 7%N; SrcKill 0; Destroy 1; FromSrc 3 KOwned 1; Resize 3 5 0%N].
+Example frame_nonvacuous :
+  untouched ex_st frame_hist 0 /\ owning (slot_at ex_st 0) /\
+  elems (run_new ex_st frame_hist) 0 = Some [RVal 1; RVal 2; RVal 3]%N /\
+  elems (run_new ex_st frame_hist) 2 = Some [RVal 9; RVal 2; RVal 3]%N.
+Proof.
+  split; [|split; [exact I | split; vm_compute; reflexivity]].
+  vm_compute. repeat split; try (intros [H|H]; [discriminate H | try destruct H as [H|H]; try discriminate H; try contradiction]);
+    try (intro H; exact H); try (intros [H1 H2]; discriminate H2).
+Qed.
 
 Example dataview_example :
   dv_index [{| b_cells := [1;2;3;4;5;6;7;8;9;10;11;12]%N; b_cap := 12; b_rc := 1 |}]
